@@ -6,10 +6,17 @@ Driver for C12 (serialisation round trips under any I/O chunking). For every obs
 of `Model/Serial.lean` is run on the same inputs (`agree`), and the property's own clauses are evaluated on
 the OBSERVED output with encoders/decoders written here independently of the model (`fail`):
 
-* a faultless script (no `e`, no `g0`) ⇒ outcome `ok` and the value read equals the original / the bytes
-  written equal the expected encoding (text: `showArr`; binary: 2+4+4 bytes little endian, 10 per node);
-* a consumed hard error ⇒ outcome `err`; never `panic`;
-* what reached the sink is always a prefix of the expected encoding.
+FAIL clauses are exactly the clauses of the statement of C12:
+* round trips: what `to_string`/`to_bytes`/`to_nodes` produced reads back equal to `b`; what a writer put into the
+  sink under a faultless script (no `e`, no `g0`: partial writes, interruptions) reads back equal to `b`; data that IS the
+  library's own serialisation of `b` (text: modulo whitespace, i.e. whitespace tolerance of the reader) reads back equal to
+  `b` under every faultless reader script;
+* exactly 10 bytes per node in the binary form;
+* a consumed hard error ⇒ outcome `err`; the outcome is never `panic`.
+Everything else is AGREEMENT ONLY (a difference is a `DIS`, i.e. "the model no longer follows the code", never a `FAIL`):
+the exact text layout and byte layout, how the data is cut into `read`/`write` calls (events consumed, buffer sizes asked),
+the partial content of the sink after an error, the decimal grammar of `str::parse`, the White_Space table, a diagram the
+library's constructors refuse, a panic of the harness while constructing a value.
 -/
 namespace B.Drive.C12
 open B B.Drive B.Serial
@@ -29,6 +36,10 @@ def hexDigit (n : Nat) : Char := if n < 10 then Char.ofNat (48 + n) else Char.of
 
 def hexOf (bs : List UInt8) : String :=
   if bs.isEmpty then "~" else String.ofList (bs.flatMap fun b => [hexDigit (b.toNat / 16), hexDigit (b.toNat % 16)])
+
+/-- a text field of the harness: verbatim, or `x:` + hex when it contains blanks (`text_field` in serial_io.rs) -/
+def textFieldBytes (f : String) : List UInt8 :=
+  if f.startsWith "x:" then unhexL (f.toList.drop 2) else f.toList.map fun c => c.toNat.toUInt8
 
 def parseEv? (t : String) : Option Ev :=
   if t == "i" then some .interrupted else if t == "e" then some .fail
@@ -174,18 +185,13 @@ def withFail (sc : List Ev) (pos : Nat) : List Ev := sc.take pos ++ [.fail]
 def handle (key : String) (ins obs : List String) : Verdict :=
   match key, ins, obs with
   | _, _, ["harness-panic"] =>
-    { agree := false, model := "no-panic", fail := some "harness-panic (a library constructor used to build the value panicked)", nontrivial := false, tags := ["harness-panic"] }
-  | "C12.big", _, ["unbuildable"] =>
-    { agree := false, model := "buildable", fail := some "from_nodes-refuses-a-well-formed-diagram", nontrivial := true, tags := ["big"] }
-  | _, b :: _, ["unbuildable"] =>
-    -- neither `from_nodes` nor the text reader produces the value from the harness's own normal forms
-    let wf := match parseArrE? b with | some A => A.size > 0 && wfoB A (numVars A) | none => false
-    { agree := false, model := "buildable", fail := if wf then some "cannot-construct-a-well-formed-diagram" else none,
-      nontrivial := false, tags := ["unbuildable"] }
-  | "C12.mem", [b], [text, bytes, rtT, rtB, rtN] =>
+    { agree := false, model := "no-panic", fail := none, nontrivial := false, tags := ["harness-panic"] }
+  | _, _, ["unbuildable"] =>
+    -- neither `from_nodes` nor the text reader produces the value from the harness's own normal forms: no `b` to talk about
+    { agree := false, model := "buildable", fail := none, nontrivial := false, tags := ["unbuildable"] }
+  | "C12.mem", [b], [_text, bytes, rtT, rtB, rtN] =>
     match parseArrE? b with
     | some A =>
-      let mText := String.ofList (writeText A)
       let mBytes := writeBytesS A
       let mRtT := match readText (asciiBytes (writeText A)) with
         | .ok A' => if A' == A then "1" else "0"
@@ -197,37 +203,39 @@ def handle (key : String) (ins obs : List String) : Verdict :=
         | .ok A' => if A' == A then "1" else "0"
         | .err _ => "err"
         | .panic _ => "panic"
-      let model := s!"{mText} {hexOf mBytes} {mRtT} {mRtB} {mRtN}"
+      let model := s!"{String.ofList (writeText A)} {hexOf mBytes} {mRtT} {mRtB} {mRtN}"
       let wf := A.size > 0 && wfoB A (numVars A)
       let fail := firstFail [
-        req (stripWs (text.toList.map fun c => c.toNat.toUInt8) == expTextBytes A) "text-form", req (unhex bytes == expBytes A) "binary-form",
         req ((unhex bytes).length == 10 * A.size) "ten-bytes-per-node",
         req (rtT == "1") "text-roundtrip", req (rtB == "1") "bytes-roundtrip",
-        req (rtN != "panic") "from_nodes-panics", req (!wf || rtN == "1") "nodes-roundtrip"]
+        req (!wf || rtN == "1") "nodes-roundtrip"]
       { agree := model == " ".intercalate obs, model, fail, nontrivial := A.size > 2,
         tags := ["mem", sizeTag A, if wf then "wf" else "raw"] ++ varTag A }
     | none => Verdict.bad "args"
-  | "C12.wtext", [b, sc], [kind, out, consumed, flushes] | "C12.wbytes", [b, sc], [kind, out, consumed, flushes] =>
+  | "C12.wtext", [b, sc], [kind, out, consumed, flushes, rt] | "C12.wbytes", [b, sc], [kind, out, consumed, flushes, rt] =>
     match parseArrE? b, parseScript? sc with
     | some A, some script =>
       let isText := key == "C12.wtext"
       let (ok, mo, s') := if isText then writeTextIO A script else writeBytesIOS A script
-      let model := s!"{if ok then "ok" else "err"} {hexOf mo} {script.length - s'.length} 0"
-      let expected := if isText then expTextBytes A else expBytes A
+      let mRt := if !ok then "-" else
+        match (if isText then readText mo else readBytesS mo) with
+        | .ok A' => if A' == A then "1" else "0"
+        | .err _ => "err"
+        | .panic _ => "panic"
+      let model := s!"{if ok then "ok" else "err"} {hexOf mo} {script.length - s'.length} 0 {mRt}"
       let o := unhex out
       let used := script.take (consumed.toNat?.getD 0)
       let fail := firstFail [
         req (kind == "ok" || kind == "err") ("outcome:" ++ kind),
         req (!faultless script || kind == "ok") "faultless-script-must-succeed",
-        req (kind != "ok" || (if isText then stripWs o else o) == expected) "written-bytes-differ",
-        req (isPrefix (if isText then stripWs o else o) expected) "sink-not-a-prefix",
-        req (!used.contains .fail || kind == "err") "io-error-not-propagated",
-        req (flushes == "0" || true) "flush"]
-      { agree := model == " ".intercalate [kind, out, consumed, flushes], model, fail,
+        req (kind != "ok" || rt == "1") ("written-data-does-not-read-back:" ++ rt),
+        req (isText || kind != "ok" || o.length == 10 * A.size) "ten-bytes-per-node",
+        req (!used.contains .fail || kind == "err") "io-error-not-propagated"]
+      { agree := model == " ".intercalate [kind, out, consumed, flushes, rt], model, fail,
         nontrivial := A.size > 2 && !script.isEmpty,
         tags := [if isText then "wtext" else "wbytes", sizeTag A] ++ scriptTags script ++ varTag A }
     | _, _ => Verdict.bad "args"
-  | "C12.rtext", [orig, data, sc], [kind, res, consumed, wants] | "C12.rbytes", [orig, data, sc], [kind, res, consumed, wants] =>
+  | "C12.rtext", [orig, data, sc], [kind, res, consumed, wants, libform] | "C12.rbytes", [orig, data, sc], [kind, res, consumed, wants, libform] =>
     match parseScript? sc with
     | some script =>
       let isText := key == "C12.rtext"
@@ -236,24 +244,34 @@ def handle (key : String) (ins obs : List String) : Verdict :=
       let (mo, r') := if isText then readTextIO ⟨bytes, script⟩ ws else readBytesIOS ⟨bytes, script⟩ #[]
       let mRes := match mo with | .ok A => showArr A | _ => "~"
       let mWants := if isText then wants else showNats (exactWants recordLenS (bytes.length + script.length + 2) ⟨bytes, script⟩ recordLenS [])
-      let model := s!"{kindOf mo} {mRes} {script.length - r'.script.length} {mWants}"
+      -- is the data the (model) writer's own form of `orig`? text: modulo whitespace
+      let mLib := if orig == "~" then "-" else
+        match parseArrE? orig with
+        | none => "0"
+        | some O =>
+          if isText then
+            (match utf8Decode bytes with
+             | some cs => if cs.filter (fun c => !isWhitespace c) == writeText O then "1" else "0"
+             | none => "0")
+          else if writeBytesS O == bytes then "1" else "0"
+      let model := s!"{kindOf mo} {mRes} {script.length - r'.script.length} {mWants} {mLib}"
       let used := script.take (consumed.toNat?.getD 0)
       let hasWs := isText && bytes.any (fun b => b.toNat ≥ 0x80 || b.toNat ≤ 0x20)
       let fail := firstFail [
         req (kind == "ok" || kind == "err") ("outcome:" ++ kind),
         req (!used.contains .fail || kind == "err") "io-error-not-propagated",
-        req (orig == "~" || !faultless script || (kind == "ok" && res == orig)) "roundtrip-under-chunking",
-        req (ws.all (· ≥ 1)) "std-offered-an-empty-buffer"]
-      { agree := model == " ".intercalate [kind, res, consumed, wants], model, fail,
+        req (libform != "1" || !faultless script || (kind == "ok" && res == orig)) "roundtrip-under-chunking"]
+      { agree := model == " ".intercalate [kind, res, consumed, wants, libform], model, fail,
         nontrivial := orig.length > 14 && !script.isEmpty,
         tags := [if isText then "rtext" else "rbytes", if orig == "~" then "noorig" else "orig"] ++ scriptTags script ++
-          (if hasWs then ["whitespace"] else []) ++ (if isText && bytes.any (fun b => b.toNat ≥ 0x80) then ["non-ascii-ws"] else []) }
+          (if hasWs then ["whitespace"] else []) ++ (if isText && bytes.any (fun b => b.toNat ≥ 0x80) then ["non-ascii-ws"] else []) ++
+          (if libform == "1" then ["libform"] else []) ++ (if ws.all (· ≥ 1) then [] else ["empty-buffer-offered"]) }
     | none => Verdict.bad "args"
   | "C12.big", [_n, _k, _seed], [size, blen, tlen, flags] =>
     match size.toNat?, blen.toNat? with
     | some sz, some bl =>
       let model := s!"{sz} {recordLenS * sz} {tlen} 1111111111111"
-      let fail := firstFail [req (bl == 10 * sz) "ten-bytes-per-node", req (String.ofList (flags.toList.set 1 '1') == "1111111111111") ("big-flags:" ++ flags)]
+      let fail := firstFail [req (bl == 10 * sz) "ten-bytes-per-node", req (String.ofList ((flags.toList.set 0 '1').set 1 '1') == "1111111111111") ("big-flags:" ++ flags)]
       { agree := model == " ".intercalate obs, model, fail, nontrivial := sz > 256,
         tags := ["big", if sz > 65536 then "nodes>65536" else if sz > 256 then "nodes>256" else "small"] }
     | _, _ => Verdict.bad "args"
@@ -264,7 +282,7 @@ def handle (key : String) (ins obs : List String) : Verdict :=
       | none => Verdict.bad "family"
       | some A =>
         if obs == ["unbuildable"] then
-          { agree := false, model := "buildable", fail := some "from_nodes-refuses-a-well-formed-diagram", nontrivial := true, tags := ["huge"] }
+          { agree := false, model := "buildable", fail := none, nontrivial := true, tags := ["huge", "unbuildable"] }
         else if !(faultless wscript && faultless rscript) then Verdict.bad "huge cases take faultless scripts"
         else
         -- model: the instance `SerialStd`; a faultless script is replayed where the replay is cheap (readers), for the
@@ -288,10 +306,11 @@ def handle (key : String) (ins obs : List String) : Verdict :=
         let fail := match obs with
           | [size, built, b, br, bw, brc, t, tr, tw, trc, e] => firstFail [
               req (size == toString A.size && built == "1") "from_nodes-alters-the-diagram",
-              req (b == writtenField "ok" eB) ("to_bytes:" ++ b),
-              req (eB.length == 10 * A.size) "ten-bytes-per-node",
+              req (b.startsWith "ok:") ("to_bytes:" ++ b),
+              req ((b.splitOn ":").getD 1 "" == toString (10 * A.size)) "ten-bytes-per-node",
               req (br == good) ("bytes-roundtrip:" ++ br),
-              req (bw == writtenField "ok" eB) ("write_as_bytes-chunked:" ++ bw),
+              req (bw.startsWith "ok:") ("write_as_bytes-chunked:" ++ bw),
+              req ((bw.splitOn ":").getD 1 "" == toString (10 * A.size)) "ten-bytes-per-node-chunked",
               req (brc == good) ("bytes-roundtrip-chunked:" ++ brc),
               req (t.startsWith "ok:") ("to_string:" ++ t),
               req (tr == good) ("text-roundtrip:" ++ tr),
@@ -311,8 +330,8 @@ def handle (key : String) (ins obs : List String) : Verdict :=
     | some s =>
       let model := match parseUInt max s with | some v => s!"ok:{v}" | none => "err"
       let indep := match independentDigits s max with | some v => s!"ok:{v}" | none => "err"
-      { agree := model == res, model, fail := req (res == indep) "decimal-grammar", nontrivial := s.length > 1,
-        tags := ["parse", ty, if res == "err" then "err" else "ok"] }
+      { agree := model == res, model, fail := none, nontrivial := s.length > 1,
+        tags := ["parse", ty, if res == "err" then "err" else "ok"] ++ (if res == indep then [] else ["differs-from-independent-grammar"]) }
     | none => Verdict.bad "utf8"
   | _, _, _ => Verdict.bad ("key " ++ key)
 
